@@ -450,3 +450,6 @@ Definition handle (e : env) (menu : list action) (pl : list pwent) (rules : list
       else if list_eqb (a_name a) kw_index then RIndex
       else RReport (a_name a)
     end.
+
+(* entry point used by the unit-level correspondence (QueryParams::Parse on its own) *)
+Definition query_parse_top (b : bytes) : qres := query_parse (S (length b)) b.
